@@ -195,10 +195,6 @@ func init() {
 		cell := value(s)
 		return tuple{&cell, nilError()}
 	})
-	reg("net.DialTCP", func(fr *frame, args []value) value {
-		E.netDials++
-		return tuple{(*value)(nil), mkError("dial tcp: connection refused (verif endpoint model: down)")}
-	})
 	reg("net.Dial", func(fr *frame, args []value) value {
 		E.netDials++
 		return tuple{iface{}, mkError("dial: connection refused (verif endpoint model: down)")}
